@@ -1,13 +1,13 @@
 #!/bin/sh
-# tools/seedbatch.sh <Cxx> <checks...> : evaluate every patchK.diff in /tmp/seeded_out/<Cxx> against the given checks
+# tools/seedbatch.sh <Cxx> <checks...> : evaluate every patchK.diff in ${SEEDBASE:-/tmp/seeded_out}/<Cxx> against the given checks
 P=$1; shift
 for k in 1 2 3; do
-  [ -f /tmp/seeded_out/$P/patch$k.diff ] || continue
-  /verif/tools/seedeval.py /tmp/seeded_out/$P "$@" --patch patch$k.diff --demo demo$k.py > /tmp/seeded_out/$P/eval$k.json 2>&1
+  [ -f ${SEEDBASE:-/tmp/seeded_out}/$P/patch$k.diff ] || continue
+  /verif/tools/seedeval.py ${SEEDBASE:-/tmp/seeded_out}/$P "$@" --patch patch$k.diff --demo demo$k.py > ${SEEDBASE:-/tmp/seeded_out}/$P/eval$k.json 2>&1
   /venv/bin/python - <<PY
 import json
 try:
-    d=json.load(open('/tmp/seeded_out/$P/eval$k.json'))
+    d=json.load(open('${SEEDBASE:-/tmp/seeded_out}/$P/eval$k.json'))
     print('$P seed $k: demo clean/patched = %s/%s' % (d.get('demo_clean_exit'), d.get('demo_patched_exit')), {c:(v['exit'], (v['lines'][1:2] or [''])[0].strip()[:110]) for c,v in d.get('checks',{}).items()}, d.get('apply_error',''))
 except Exception as e:
     print('$P seed $k: eval failed', e)
